@@ -182,7 +182,7 @@ type specAbort struct{}
 // tryIfConvert evaluates the If at the end of c.block as data flow. Returns
 // true when done (c is positioned in the join block after its phis).
 func (ex *Exec) tryIfConvert(c *ctx, x *ssa.If, cond *Term) bool {
-	if ex.noIfConv {
+	if ex.noIfConv || noIfConvFuncs[c.fn.String()] {
 		return false
 	}
 	ri := ex.findRegion(c.block)
@@ -449,3 +449,7 @@ func (ex *Exec) specInstr(c *ctx, in ssa.Instruction, guard *Term) {
 		panic(specAbort{})
 	}
 }
+
+// functions whose branches steer indices: keeping them as forks keeps the
+// indices concrete
+var noIfConvFuncs = map[string]bool{"sort.Search": true}
